@@ -52,6 +52,10 @@ func (s LocalStore) GetChunk(id ChunkID) (*Chunk, error) {
 	if os.IsNotExist(err) {
 		return nil, ChunkMissing{id}
 	}
+	if err != nil {
+		// A chunk that can't be read isn't an invalid chunk
+		return nil, err
+	}
 	return NewChunkFromStorage(id, b, s.converters, s.Opt.SkipVerify)
 }
 
